@@ -431,6 +431,10 @@ inline void dump_stats() {
   write_file(S.prefix + ".digests", d);
 }
 // Executes one case with all bookkeeping; returns whether the property held.
+inline void set_ambient_errno(const std::string &text) {
+  static const int AMBIENT[] = {0, 0, ERANGE, EINVAL, EINTR, ENOMEM, EAGAIN, ENOENT};
+  errno = AMBIENT[fnv(text) % (sizeof AMBIENT / sizeof AMBIENT[0])];
+}
 inline bool execute(const Case &c) {
   State &S = st();
   if (S.deadline > 0 && !S.failed && now() > S.deadline) {
@@ -444,6 +448,9 @@ inline bool execute(const Case &c) {
     memcpy(S.last, text.data(), n);
     S.last[n] = 0;
   }
+  // ambient errno: whatever the application did before calling the library may have left any value there; a pure function of the case,
+  // so that replays agree (in fork mode the child inherits it)
+  set_ambient_errno(text);
   Outcome o = S.fork ? run_forked(*S.sub, c) : S.sub->run(c);
   if (!o.ok && S.known.count(o.sig)) {
     S.known_hits++;
@@ -552,6 +559,7 @@ inline int pbt_main(int argc, char **argv, const std::vector<Sub> &subs) {
       return 2;
     }
     Case c = from_text(t);
+    detail::set_ambient_errno(to_text(c));
     Outcome o = (forkm || sp->fork) ? run_forked(*sp, c) : sp->run(c);
     printf("REPLAY sub=%s ok=%d sig=%s msg=%s\n", sub.c_str(), (int)o.ok, o.sig.c_str(), o.msg.c_str());
     return o.ok ? 0 : 1;
